@@ -28,6 +28,22 @@ coalesced with the magic or with the handshake padding, and reads that block in 
 namespace C13
 open O4 O4.SC O4.Obfs3 O4.Consts.Obfs3
 
+/-! ### the wire-format constants are the specification's -/
+
+/-- **Spec conformance of the constants.** The constants regenerated from the Go tree on this run
+are the values of the obfs3 specification (MAX_PADDING 8194, AES-128 key length, the four HMAC
+labels) and of UniformDH (RFC 3526 group 5, generator 2, 192-byte keys). A change of any of them in
+the code — which the model, built from the same constants, would follow silently — stops this
+theorem from checking. -/
+theorem spec_constants :
+    maxPadding = 8194 ∧ keyLen = 16 ∧ sha256Size = 32 ∧ uniformdhSize = 192 ∧
+    initiatorKdfString = "Initiator obfuscated data" ∧ responderKdfString = "Responder obfuscated data" ∧
+    initiatorMagicString = "Initiator magic" ∧ responderMagicString = "Responder magic" ∧
+    O4.Consts.Uniformdh.size = 192 ∧ O4.Consts.Uniformdh.g = 2 ∧
+    O4.Consts.Uniformdh.modpStr =
+      "FFFFFFFFFFFFFFFFC90FDAA22168C234C4C6628B80DC1CD129024E088A67CC74020BBEA63B139B22514A08798E3404DDEF9519B3CD3A431B302B0A6DF25F14374FE1356D6D51C245E485B576625E7EC6F44C42E9A637ED6B0BFF5CB6F406B7EDEE386BFB5A899FA5AE9F24117C4B1FE649286651ECE45B3DC2007CB8A163BF0598DA48361C55D39A69163FA8FD24CF5F83655D23DCA3AD961C62F356208552BB9ED529077096966D670C354E4ABC9804F1746C08CA237327FFFFFFFFFFFFFFFF" :=
+  ⟨rfl, rfl, rfl, rfl, rfl, rfl, rfl, rfl, rfl, rfl, rfl⟩
+
 /-! ### UniformDH -/
 
 /-- **Agreement, algebraic core.** In `ZMod n` for any modulus `n` and base `g`: with even private
